@@ -368,6 +368,10 @@ func advRangeJob(c *vh.Check, cv ecc.ID, b string, ws []int) {
 	}
 	for bad := range ws {
 		vals, names := rangeValues(ws[bad], p)
+		if !c.Quick() {
+			fv, fn := fracValues(p)
+			vals, names = append(vals, fv...), append(names, fn...)
+		}
 		for vi, v := range vals {
 			if inRange(v, ws[bad]) {
 				continue
